@@ -3,6 +3,28 @@ package network
 // C43 — Peers never deliver oversized or duplicate gossip to handlers. Entry point of part 1 (sequential parts
 // a, b, c); part 2 (E-SCHED) is TestVerif_C43_sched in verif_c43_sched_test.go. The per-part headers state the
 // alphabets, bounds and oracles (verif_c43_a_slurper_test.go, verif_c43_b_peer_test.go, verif_c43_c_filter_test.go).
+//
+// Unexported identifiers the harness depends on (a rename is a build failure, exit 2, never a verdict):
+//   LimitedReaderSlurper.{buffers,lastBuffer,remainedUnallocatedSpace,currentMessageBytesRead,currentMessageMaxSize},
+//   allocationStep, averageMessageLength; wsPeer.{conn,closing,sendBufferHighPrio,sendBufferBulk,responseChannels,
+//   processed,incomingMsgFilter,outgoingMsgFilter,enableVoteCompression,voteCompressionTableSize,features,msgCodec,wg,
+//   outstandingTopicRequests,readLoop,makeResponseChannel}, makePeerCore, makeWsPeerMsgCodec, wsPeerWebsocketConn,
+//   GossipNode.peerRemoteClose, disconnectReason*, sendMessage.{data,msgTags}, Topic.{key,data}, requestHashKey,
+//   zstdCompressionMagic, voteCompressionAbortMessage, pfCompressedVoteVpack*, messageFilter.{buckets,
+//   currentTopBucket,nonce}, makeMessageFilter.
+//
+// Detection demonstrated (bin/mut, quick tier; all revert to PASS):
+//   M1  slurper.Reset keeps a stale larger limit (currentMessageMaxSize = max(old,n))      DETECTED  part a phase 2 (Reset from every state)
+//   M2  allocateNextBuffer ignores the remaining allowance (always allocationStep)         DETECTED  part a (capacity > max allocation)
+//   M3  readLoop resets the slurper with TxnTag's limit for every tag                      DETECTED  part b1 (AV limit+1 handed to readBuffer)
+//   M4b readLoop reads without a limit and compares the size AFTER the read                DETECTED  part b1 (AV limit+200000: 264192 bytes of buffer offered, bound 67584)
+//   M5  messageFilter.CheckDigest releases the lock between find and insert                DETECTED  only by the E-SCHED part (1 preemption); part 1 passes
+//   M6b bucket rotation clears the newest (just filled) bucket instead of the oldest       DETECTED  part c E-SEQ at depth 3 and E-SCHED crossed-pair
+//   M6  same, leaving a nil bucket (panic in the read loop)                                DETECTED  as C43:panic (E-SEQ) / thread panic (E-SCHED)
+//   M7  promotion disabled (needs the 6-step sequence a,b,c,a,d,a to lose a in-window)      DETECTED  part c E-SEQ at depth 6 exactly
+//   M8  zstdProposalDecompressor.convert without the decompressed-size check               DETECTED  part b2 (PP with limit+1 decompressed bytes handed on)
+//   M9  slurper per-message check off by one (>= instead of >)                             DETECTED  part a (message of exactly limit bytes rejected)
+//   M10 messageFilter.find skips the top bucket                                            DETECTED  part c E-SEQ depth 2 and E-SCHED
 
 import (
 	"encoding/json"
